@@ -69,7 +69,7 @@ CLAUSES = {
         "Spec.clientParse on the model's wire bytes = exactly one response, nothing left over, status/reason/header lines "
         "= what write_headers serialised, body = concatenation of the chunks accepted by the connection, delimited by "
         "no-body/chunked/Content-Length/close; otherwise truncated AND closed, only when the handler's own Content-Length "
-        "exceeds what it wrote; header VALUES are unrestricted since fix 28dd4cc) + response_wellframed (the originally "
+        "exceeds what it wrote; header VALUES are unrestricted since fix 16d5f7d) + response_wellframed (the originally "
         "stated goal, now at full strength: formerly _partial, with _refuted by set_header('Content-Length','a')) + "
         "flush_rejects_invalid_content_length / content_length_check_iff / accepted_flush_raises_only_closed (flush() with "
         "a Content-Length that is not one decimal number raises before _headers_written is set and changes nothing; a flush "
@@ -108,7 +108,7 @@ H_BAD = ["a\nb", "a\rb", "\x00", "x\x7f", "Ā", "a\r\nX-Evil: 1"]
 CONN = [None, None, "keep-alive", "Keep-Alive", "close", "Close", "foo"]
 INM = ["none", "none", "star", "hit", "weakhit", "miss", "junk"]
 NOBODY = lambda code: code in (204, 304) or 100 <= code < 200
-# handler-set Content-Length values parse_int rejects (fix 28dd4cc: rejected by flush() before the response starts) ...
+# handler-set Content-Length values parse_int rejects (fix 16d5f7d: rejected by flush() before the response starts) ...
 CL_BAD = ["a", "", " ", "-1", "-0", "+3", " 3", "3 ", "3\t", "3,3", "3, 3", "0x10", "1e3", "3.0", "\xb2", "1_0", "3;", "\xff",
           "12a", "a12", "Ā"]
 # ... and unusual ones it accepts
@@ -664,7 +664,7 @@ def intended(case, default_ct=True):
 
 def cl_invalid_at_start(case):
     """the program reaches its first flush / finish (explicit or automatic) with an invalid Content-Length and
-    nothing rejected before: the case the fix 28dd4cc is about"""
+    nothing rejected before: the case the fix 16d5f7d is about"""
     hdrs = {}
     for o in case["prog"]:
         k = o[0]
